@@ -67,7 +67,10 @@ def make_overlay(pid, spec, tmp):
                 vis = 'pub(crate) ' if hf in ('kcommon.rs', 'kdt.rs', 'kcfb.rs') else ''
                 f.write('#[cfg(kani)] #[path = "%s"] %smod %s;\n' % (os.path.join(hdir, hf), vis, mod))
     # declared textual substitutions (I/O source stubs), must match exactly n sites
-    for sub in spec.get('substitutions', []):
+    subs = spec.get('substitutions', [])
+    if isinstance(subs, str):
+        subs = specs.PROPS[subs]['substitutions']
+    for sub in subs:
         p = os.path.join(ov, sub['file'])
         s = open(p).read()
         n = s.count(sub['old'])
@@ -126,7 +129,7 @@ def run_harness(h, cfg, wdir):
     t0 = time.time()
     klib = os.path.join(V, 'khome', 'kani_lib_%s.c' % cfg.get('alloc', 'lazy'))
     steps = [
-        ['goto-cc', h['goto_file'], klib, '-DKANI_ARENA=%d' % cfg['arena'], '-o', out],
+        ['goto-cc', h['goto_file'], klib, '-DKANI_ARENA=%d' % cfg['arena'], '-DKANI_ARENA_BIG=%d' % cfg.get('arena_big', cfg['arena']), '-o', out],
         ['goto-cc', out, '--function', h['mangled_name'], '-o', out],
         ['goto-instrument', '--add-library', '--no-malloc-may-fail', out, out],
         ['goto-instrument', '--generate-function-body-options', 'assert-false-assume-false',
@@ -214,7 +217,7 @@ def run_harness(h, cfg, wdir):
     if props is None:
         res['reason'] = res['reason'] or 'no result block (exit %s)' % p.returncode
         return res
-    failed, unwind_fail, unsupported, errors = [], [], [], []
+    failed, unwind_fail, unsupported, errors, unknowns = [], [], [], [], []
     for pr in props:
         pname = pr['property']
         parts = pname.rsplit('.', 2)
@@ -234,7 +237,9 @@ def run_harness(h, cfg, wdir):
         loc = pr.get('sourceLocation', {})
         desc = re.sub(r'^\[KANI_CHECK_ID_[^\]]*\]\s*', '', pr.get('description', ''))
         item = dict(function=func, cls=cls, desc=desc, file=loc.get('file', ''), line=int(loc.get('line', 0) or 0), status=st)
-        if st != 'FAILURE':
+        if st == 'UNKNOWN':
+            unknowns.append(item)
+        elif st != 'FAILURE':
             errors.append(item)
         elif cls == 'unwind':
             unwind_fail.append(item)
@@ -242,9 +247,17 @@ def run_harness(h, cfg, wdir):
             unsupported.append(item)
         else:
             failed.append(item)
+    if unknowns and not failed:
+        errors += unknowns
     res['failed'] = failed
     res['unwind_fail'] = unwind_fail
     res['unsupported'] = unsupported
+    if cfg.get('unwind_violation') and unwind_fail and not errors:
+        for it in unwind_fail:
+            it['desc'] = 'loop bound exceeded (no termination within the bound derived from the input): ' + it['desc']
+        failed += unwind_fail
+        unwind_fail = []
+        res['failed'] = failed
     if errors:
         res['reason'] = 'solver returned status %s for %d properties (resource exhaustion inside the SAT back end?)' % (errors[0]['status'], len(errors))
     elif unwind_fail:
@@ -279,8 +292,10 @@ def src_line(ov, item):
 
 def finding_key(pid, hname, item, ov):
     fn = item['function']
-    in_harness = '/kh/' in item['file'] or item['file'].startswith('kh/') or '::k_' in fn
-    pointer = item['cls'].startswith('pointer') or item['cls'] in ('array_bounds', 'precondition_instance')
+    in_std = 'rustlib/src/rust/library' in item['file'] or item['file'].startswith('library/')
+    in_harness = '/kh/' in item['file'] or item['file'].startswith('kh/') or '::k_' in fn or in_std
+    pointer = (item['cls'].startswith('pointer') or item['cls'] in ('array_bounds', 'precondition_instance')
+               or item['desc'].startswith('dereference failure') or 'same allocation' in item['desc'] or 'same object' in item['desc'])
     return dict(property=pid, harness=hname if in_harness else '*', function=fn, desc=item['desc'],
                 text=src_line(ov, item), in_harness=in_harness, pointer=pointer)
 
@@ -514,6 +529,10 @@ def run(pid, spec, a, seed, tmp, t_start):
                 new.append(it)
         if new:
             # pointer-class failures with the lazy arena mean "arena exceeded" unless a panic-class failure accompanies them
+            if cfg.get('ignore_pointer'):
+                new = [it for it in new if not it['key']['pointer']]
+                if not new:
+                    continue
             hard = [it for it in new if not it['key']['pointer']]
             if not hard:
                 inconclusive.append('%s: only memory-model checks failed (%s) -> arena %d exceeded / not a decided violation' % (
